@@ -25,7 +25,9 @@ RULE = ("400 (quick) / 8 x 1500 (thorough) histories after the corpus, each of 3
         "trajectory of 1..5 states, dynamic without prediction, in 15 % of the histories one dynamic obstacle with a "
         "SetBasedPrediction; rectangle axis-aligned or rotated, circle, polygon, shape group) "
         "on networks of 2..7 lanelets (parallel lanes sharing a boundary, successor lanes, a crossing lane, a bent lane, a far "
-        "lane), all coordinates on the grid k/16; obstacle centres sit in a lane, exactly on a shared boundary, half a width "
+        "lane; in 30 % of the networks 1..3 lanelets are COPIES of another one under a new id: the same vertices in the same order "
+        "(polygons equal by value), the same strip driven the other way, or the same region with an extra collinear vertex - every "
+        "copy has to appear in the recorded sets and has to list the obstacle, buckets geo/identical-polygons-*), all coordinates on the grid k/16; obstacle centres sit in a lane, exactly on a shared boundary, half a width "
         "away from it (shape touches / overlaps the neighbour while the centre does not), or off the road. "
         "Every history is then diversified along the generator-audit table (DIM_SIGNATURES / DIM_MEMBERS): list forms, network-level "
         "and replace_lanelet_network entry points, argument containers and numpy scalars, empty / repeated time steps, id 0, time steps "
@@ -82,6 +84,7 @@ EXTRA_MODULES = ["CRProps.C07b", "CRProps.C07c", "CRProps.T07"]
 REQUIRED_BUCKETS = ["entry/assign", "entry/reopen-xml", "entry/reopen-pb", "kind/static", "kind/traj", "kind/none", "kind/set", "geo/composed-compared",
                     "shape/rect", "shape/rect-rotated", "shape/circ", "shape/poly", "shape/group",
                     "geo/shape-beyond-center", "geo/touching", "geo/off-road", "geo/multi-lanelet-center",
+                    "geo/identical-polygons-center", "geo/identical-polygons-shape", "geo/same-region-other-vertices-shape",
                     "op/remove-after-assign", "op/readd", "op/partial-assign", "op/center-only", "op/error",
                     "net/rmlane", "net/addlane", "net/remove-obstacle-recording-absent-lanelet",
                     "net/remove-preset-obstacle-after-late-lanelets", "net/network-level-or-list",
@@ -398,6 +401,27 @@ def gen_network(r):
         strip([(x0 + 200.0, y0), (x0 + 220.0, y0)], 2.0)
     if len(lanes) < 2:
         strip([(x0, y0 - w / 2), (x0 + length, y0 - w / 2)], w / 2)
+    if r.random() < 0.3:
+        # lanelets EQUAL BY VALUE, distinct by id (a lane duplicated as an overlay of another type, the output of a map converter,
+        # the opposite direction drawn on the same strip): every one of them contains the centre / meets the occupancy, so every
+        # one has to be in the recorded sets and has to list the obstacle. "exact": the same vertices in the same order (the
+        # polygons compare and hash equal); "reversed": the same region driven the other way (other vertex order); "dense": the
+        # same region with an extra collinear vertex on either bound. Copies of copies happen (three or more equal polygons).
+        for _ in range(r.choice([1, 1, 2, 3])):
+            near = [l for l in lanes if l["left"][0][0] < x0 + 100.0]
+            src = r.choice(near if r.random() < 0.85 else lanes)           # mostly where the obstacles are
+            how = r.choice(["exact", "exact", "exact", "reversed", "dense"])
+            left, right = [list(v) for v in src["left"]], [list(v) for v in src["right"]]
+            if how == "reversed":
+                left, right = right[::-1], left[::-1]
+            elif how == "dense":
+                i = r.randrange(len(left) - 1)
+                left.insert(i + 1, [(left[i][0] + left[i + 1][0]) / 2, (left[i][1] + left[i + 1][1]) / 2])
+                right.insert(i + 1, [(right[i][0] + right[i + 1][0]) / 2, (right[i][1] + right[i + 1][1]) / 2])
+            nid[0] += 1
+            lanes.append({"id": nid[0], "left": left, "right": right})
+        if r.random() < 0.4:
+            r.shuffle(lanes)            # the copy is not always the lanelet added last
     return lanes
 
 
@@ -1060,6 +1084,16 @@ class World:
         self._brute = {}
         self._seen = set()
         self.net_version = 0
+
+    def ring_key(self, lid):
+        l = self.lane_spec[lid]
+        return tuple(map(tuple, l["right"])) + tuple(map(tuple, l["left"][::-1]))
+
+    def region_key(self, lid):
+        """the region of a strip lanelet: its boundary vertices without collinear ones, as a set (good enough for a coverage tag)"""
+        k = self.ring_key(lid)
+        n = len(k)
+        return frozenset(k[i] for i in range(n) if _orient(tuple(map(frac, k[i - 1])), tuple(map(frac, k[i])), tuple(map(frac, k[(i + 1) % n]))) != 0)
 
     def first(self, what):
         if what in self._seen:
@@ -1831,6 +1865,14 @@ def tag_case(ctx, w, case):
                 ctx.tag("geo/multi-lanelet-center")
             if sq:
                 ctx.tag("geo/touching")
+            # two or more lanelets with the SAME polygon (same vertices, same order) hold the centre / meet the occupancy
+            for ids, name in ((cm, "center"), (sm, "shape")):
+                rings = [w.ring_key(l) for l in ids]
+                if len(set(rings)) < len(rings):
+                    ctx.tag("geo/identical-polygons-" + name)
+                regions = [w.region_key(l) for l in ids]
+                if len(set(regions)) < len(set(rings)):
+                    ctx.tag("geo/same-region-other-vertices-" + name)
     return beyond
 
 
